@@ -101,6 +101,8 @@ def run_case(desc):
             obj = streams.make_strategy(name, b, desc["seed"] % 1000, **extra)
             kind = "hard"
         X = streams.feature_stream(rng, n, d, desc["stream"])
+        if (desc["seed"] >> 15) % 4 == 0:
+            X = X.astype(np.float32)          # single-precision instances are legal input
         U = None
         clf = streams.stub_clf()
     chunks = streams.chunking(rng, n, desc["chunking"])
